@@ -834,7 +834,7 @@ func (ex *Exec) step(st *State) *forkReq {
 	case *ssa.Index:
 		ex.index(st, fr, x)
 	case *ssa.IndexAddr:
-		ex.indexAddr(st, fr, x)
+		return ex.indexAddr(st, fr, x)
 	case *ssa.Lookup:
 		return ex.lookup(st, fr, x)
 	case *ssa.MakeChan:
@@ -862,6 +862,32 @@ func (ex *Exec) step(st *State) *forkReq {
 	case *ssa.MakeSlice:
 		n, ok1 := ex.constInt(ex.eval(st, fr, x.Len))
 		c, ok2 := ex.constInt(ex.eval(st, fr, x.Cap))
+		if (!ok1 || !ok2) && x.Len == x.Cap {
+			// a symbolic length with a small known range: one path per value
+			lt := ex.asTerm(ex.eval(st, fr, x.Len))
+			if _, hi := ex.st.Interval(lt); hi <= 32 {
+				et := x.Type().Underlying().(*types.Slice).Elem()
+				conds := make([]*smt.Term, hi+1)
+				for k := uint64(0); k <= hi; k++ {
+					conds[k] = ex.st.Eq(lt, ex.st.BV(k, lt.W))
+				}
+				return ex.splitConds(st, fr, x, conds, func(ch *State, i int) {
+					if i < 0 {
+						ch.Dead = true
+						ch.Reason = "length outside its interval"
+						return
+					}
+					z := ex.zero(et)
+					elems := make([]Value, i)
+					for k := range elems {
+						elems[k] = z
+					}
+					cf := ch.top()
+					cf.Env[x] = ex.newSlice(ch, elems, i, z)
+					cf.IP++
+				})
+			}
+		}
 		if !ok1 || !ok2 {
 			panic(unsupported("make([]T, n) with symbolic length at " + site(x)))
 		}
@@ -1344,7 +1370,17 @@ func (ex *Exec) index(st *State, fr *Frame, x *ssa.Index) {
 	fr.IP++
 }
 
-func (ex *Exec) indexAddr(st *State, fr *Frame, x *ssa.IndexAddr) {
+// unmergeableElem reports whether values of this type cannot be joined by
+// ite (pointers, interfaces, slices, maps, functions, channels).
+func unmergeableElem(t types.Type) bool {
+	switch t.Underlying().(type) {
+	case *types.Pointer, *types.Interface, *types.Slice, *types.Map, *types.Signature, *types.Chan:
+		return true
+	}
+	return false
+}
+
+func (ex *Exec) indexAddr(st *State, fr *Frame, x *ssa.IndexAddr) *forkReq {
 	v := ex.eval(st, fr, x.X)
 	idx := ex.asTerm(ex.eval(st, fr, x.Index))
 	idx = ex.st.Resize(idx, 64, isSigned(x.Index.Type()))
@@ -1352,23 +1388,41 @@ func (ex *Exec) indexAddr(st *State, fr *Frame, x *ssa.IndexAddr) {
 	switch c := v.(type) {
 	case *SliceV:
 		if ex.mayPanic(st, x, "index out of range", s.Not(s.ULt(idx, s.BV(uint64(c.Len), 64)))) {
-			return
+			return nil
+		}
+		if !idx.IsConst() && c.Len > 0 && unmergeableElem(x.X.Type().Underlying().(*types.Slice).Elem()) {
+			// elements that cannot be joined: one path per index value
+			conds := make([]*smt.Term, c.Len)
+			for k := 0; k < c.Len; k++ {
+				conds[k] = s.Eq(idx, s.BV(uint64(k), 64))
+			}
+			return ex.splitConds(st, fr, x, conds, func(ch *State, i int) {
+				if i < 0 {
+					ch.Dead = true
+					ch.Reason = "index outside the slice (excluded by the bounds obligation)"
+					return
+				}
+				cf := ch.top()
+				cf.Env[x] = &Ptr{Obj: c.Obj, Path: []PathElem{{Field: -1, Index: s.BV(uint64(c.Off+i), 64)}}}
+				cf.IP++
+			})
 		}
 		fr.Env[x] = &Ptr{Obj: c.Obj, Path: []PathElem{{Field: -1, Index: s.Add(idx, s.BV(uint64(c.Off), 64))}}}
 	case *Ptr:
 		if c.IsNil() {
 			ex.mayPanic(st, x, "nil dereference", s.True)
-			return
+			return nil
 		}
 		n := int(x.X.Type().Underlying().(*types.Pointer).Elem().Underlying().(*types.Array).Len())
 		if ex.mayPanic(st, x, "index out of range", s.Not(s.ULt(idx, s.BV(uint64(n), 64)))) {
-			return
+			return nil
 		}
 		fr.Env[x] = &Ptr{Obj: c.Obj, Path: append(append([]PathElem(nil), c.Path...), PathElem{Field: -1, Index: idx})}
 	default:
 		panic(unsupported(fmt.Sprintf("IndexAddr on %T", v)))
 	}
 	fr.IP++
+	return nil
 }
 
 func (ex *Exec) sliceOp(st *State, fr *Frame, x *ssa.Slice) {
